@@ -2057,7 +2057,17 @@ pub fn assign_all(
                 rhs.push(evaluate(env, e)?);
             }
 
-            let rrhs = rhs.drain(rhs.len() - lhs.len() + si + 1..).collect();
+            // every pattern except the splat needs a value of its own
+            if rhs.len() + 1 < lhs.len() {
+                return Err(NErr::value_error(format!(
+                    "{}: expected at least {} ({}), got {}",
+                    err_msg,
+                    lhs.len() - 1,
+                    CommaSeparated(lhs),
+                    rhs.len()
+                )));
+            }
+            let rrhs = rhs.drain(rhs.len() + si + 1 - lhs.len()..).collect();
             let srhs = rhs.drain(si..).collect();
             assign_all_basic(env, &lhs[..si], rt, rhs, err_msg)?;
             match inner {
